@@ -20,15 +20,22 @@ def styles_phase(ctx):
     os.makedirs(d)
     vdr = vlib.build_driver(d, race=True)
     inp = os.path.join(d, "input.ndjson")
-    rounds = 400 if tier == "quick" else 4000
-    with open(inp, "w") as f:
-        for i in range(4):
-            f.write(json.dumps({"burst": {"rounds": rounds // 4, "names": 6, "seed": seed * 10 + i}}) + "\n")
-    recs, nl, st, lib, fatal = _registry_run(ctx, vdr, d, inp, "a", need=("reg.register", "init", "styles"))
+    # (the registry only grows, and every listing line holds all of it: a process gets at most 400 bursts)
+    nproc = 1 if tier == "quick" else 10
+    rounds = 400 * nproc
+    recs, lib, fatal = [], [], ""
+    for k in range(nproc):
+        with open(inp, "w") as f:
+            for i in range(4):
+                f.write(json.dumps({"burst": {"rounds": 100, "names": 6, "seed": seed * 1000 + k * 10 + i}}) + "\n")
+        r1, nl, st, l1, f1 = _registry_run(ctx, vdr, d, inp, "a%d" % k, need=("reg.register", "init", "styles"))
+        recs += r1
+        lib += l1
+        fatal = fatal or f1
+        ctx["nops"] += st.get("ops", 0)
+        ctx["nlines"] += nl
+        ctx["hashes"].add("bursts:" + st.get("content", ""))
     ctx["nscen"] += rounds
-    ctx["nops"] += st.get("ops", 0)
-    ctx["nlines"] += nl
-    ctx["hashes"].add("bursts:" + st.get("content", ""))
     log("style listing under concurrency: %d bursts of 6 registrations with two goroutines listing the styles" % rounds)
     viol = []
     if fatal or lib:
@@ -64,6 +71,39 @@ def _library_fatal(out):
     return "go.pennock.tech/tabular" in head or "/repo/" in head
 
 
+def _library_panic(out):
+    """An unrecovered panic ended the driver, and it was raised inside the library (the first frame of the
+    panicking goroutine that is either the library's or the driver's is the library's)."""
+    i = out.find("\npanic: ")
+    if i < 0:
+        return False
+    j = out.find("[running]:", i)
+    if j < 0:
+        return False
+    for ln in out[j:].split("\n")[1:]:
+        if ln.startswith("\t") or not ln.strip():
+            if not ln.strip():
+                break
+            continue
+        if ln.startswith("go.pennock.tech/tabular"):
+            return True
+        if ln.startswith("main."):
+            return False
+    return False
+
+
+def _library_hang(out):
+    """The watchdog's goroutine dump shows a goroutine that waits (for a lock, a channel, a condition) with a
+    frame of the library on its stack."""
+    dump = out[out.index("vdrive: HANG"):]
+    for g in dump.split("\n\ngoroutine ")[1:]:
+        head = g.split("\n", 1)[0]
+        waiting = any(w in head for w in ("semacquire", "sync.Mutex.Lock", "sync.RWMutex", "chan receive", "chan send", "select", "sync.Cond.Wait", "sync.WaitGroup.Wait"))
+        if waiting and "go.pennock.tech/tabular" in g.split("created by")[0]:
+            return True
+    return False
+
+
 def _phase_artifact(ctx, name, mode, text, extra=None):
     """Replay artifact of a phase violation: JSON saying how to run that phase again (bin/check --replay)."""
     rdir = os.path.join(ctx["wd"], "replay")
@@ -91,6 +131,12 @@ def _registry_run(ctx, vdr, d, inp, tag, need=("reg.named", "reg.list", "reg.reg
         if _library_fatal(out):
             # the Go runtime itself aborted the process: unsynchronised map access inside the library
             return [], 0, {}, lib, out
+        if _library_panic(out):
+            # a registry call panicked under concurrency (e.g. an index computed from a map that grew meanwhile)
+            return [], 0, {}, lib, out[out.find("\npanic: ") + 1:]
+        if p.returncode == 3 and "vdrive: HANG" in out and _library_hang(out):
+            # registry calls that never return: a goroutine is blocked inside the library
+            return [], 0, {}, lib, out[out.index("vdrive: HANG"):]
         raise Infra("registry driver failed (%d): %s" % (p.returncode, out[-3000:]))
     if reports and not lib:
         raise Infra("the race detector reported a race without a library frame (driver bug?):\n" + reports[0][:3000])
@@ -143,32 +189,58 @@ def registry_phase(ctx):
     vdr = vlib.build_driver(d, race=True)
     inp = os.path.join(d, "input.ndjson")
     nforced = 0
-    with open(inp, "w") as f:
+    seen = set()
+    mlog = os.path.join(d, "modellog.ndjson")
+    nmodel = 0
+    with open(inp, "w") as f, open(mlog, "w") as ml:
         for ps in ["rw", "ww", "mix"]:
             md = os.path.join(d, "mc-" + ps)
             vlib.copy_spec(md)
             genf = os.path.join(md, "gen.ndjson")
+            logf = os.path.join(md, "log.ndjson")
             with open(os.path.join(md, "MCRegistry.cfg"), "w") as c:
                 c.write("SPECIFICATION Spec\nCONSTANTS\n  Procs <- MCProcs\n  Prog <- MCProg\n  Builtins <- MCBuiltins\n"
-                        "  ProgSet = \"%s\"\n  GenFile = \"%s\"\nINVARIANT Inv\nACTION_CONSTRAINT EmitDone\nCHECK_DEADLOCK FALSE\n" % (ps, genf))
+                        "  ProgSet = \"%s\"\n  GenFile = \"%s\"\n  LogFile = \"%s\"\nINVARIANT Inv\nACTION_CONSTRAINT EmitDone\n"
+                        "ACTION_CONSTRAINT EmitLog\nCHECK_DEADLOCK FALSE\n" % (ps, genf, logf))
             g, dist, _ = vlib.run_tlc(md, "MCRegistry", workers=4, timeout=900)
             ctx["states"] += dist
             ctx["transitions"] += g
             ctx["mc_info"].append({"module": "MCRegistry", "constants": {"ProgSet": ps}, "distinct_states": dist, "states_generated": g})
             for line in open(genf):
-                if line.strip():
+                # (one line per complete behaviour; behaviours that differ only in when locks were taken and
+                # released share their linearization order)
+                if line.strip() and line not in seen:
+                    seen.add(line)
                     f.write(line)
                     nforced += 1
                     if nforced % 97 == 1 and len(ctx["samples"]) < 8:
                         ctx["samples"].append({"source": "MCRegistry forced schedule", "scenario": json.loads(json.loads(line))})
+            # the same behaviours as an observer outside the lock logs them (call / return lines in clock order)
+            for line in open(logf):
+                if line.strip():
+                    for ev in json.loads(json.loads(line)):
+                        ev["scen"] = "m%d" % nmodel
+                        ml.write(json.dumps(ev) + "\n")
+                    nmodel += 1
             shutil.rmtree(md, ignore_errors=True)
         if nforced == 0:
             raise Infra("MCRegistry generated no forced schedule")
         nstress = 3 if tier == "quick" else 40
         for i in range(nstress):
             f.write(json.dumps({"stress": {"g": 8 if tier == "quick" else 16, "n": 200 if tier == "quick" else 500, "seed": seed * 100 + i}}) + "\n")
-    log("registry: %d forced schedules from the model (each a linearization order, run sequentially), %d free-running stress runs"
-        % (nforced, nstress))
+    # specification against specification: every behaviour of the lock-based design model, logged as call/return
+    # lines, must be accepted by the trace specification that judges the real registry (else that one is too strict)
+    if nmodel == 0:
+        raise Infra("MCRegistry wrote no behaviour log")
+    mrecs, mnl = vlib.validate(mlog, d, module="RegistryTrace", nshards=1)
+    if mrecs:
+        raise Infra("RegistryTrace.tla rejects a behaviour of the design model Registry.tla (the trace specification is too strict): %s"
+                    % json.dumps(mrecs[0])[:800])
+    ctx["mc_info"].append({"module": "RegistryTrace on the behaviours of MCRegistry", "constants": {}, "behaviours": nmodel, "lines": mnl,
+                           "comparisons": dict(vlib.LAST_COMPARED)})
+    os.remove(mlog)
+    log("registry: %d complete behaviours of the design model accepted by the trace specification; %d distinct linearization orders "
+        "(run sequentially on the real registry), %d free-running stress runs" % (nmodel, nforced, nstress))
     if tier != "quick":
         info = registry_proofs(ctx, d)
         ctx["mc_info"].append({"module": "RegistryProof / RegistryInd", "constants": {}, **info})
@@ -183,8 +255,10 @@ def registry_phase(ctx):
     viol = []
     if fatal or lib:
         text = fatal or ("WARNING: DATA RACE" + "\nWARNING: DATA RACE".join(lib))
-        log("MISMATCH the race detector / Go runtime reported %s inside the library during the registry runs; first:\n%s"
-            % ("a fatal concurrent map access" if fatal else "%d data race(s)" % len(lib), text[:1500]))
+        what = ("registry calls that never returned (a goroutine blocked inside the library)" if fatal.startswith("vdrive: HANG")
+                else "a panic inside a registry call" if fatal.startswith("panic: ")
+                else "a fatal concurrent map access" if fatal else "%d data race(s)" % len(lib))
+        log("MISMATCH the race detector / Go runtime reported %s inside the library during the registry runs; first:\n%s" % (what, text[:1500]))
         viol.append(_phase_artifact(ctx, "C17-race.json", "registry", text))
     if recs:
         # reproduce: the sequential parts (forced schedules, read-back) must show again; stress may need retries
